@@ -169,6 +169,27 @@ void vd_audio_free(vd_audio *a) { free(a->s); a->s = NULL; a->n = 0; }
 
 /* ================= decoders ================= */
 void vd_cfg_default(vd_cfg *c, int lang) { memset(c, 0, sizeof(*c)); c->lang = lang; c->samprate = 16000; c->cmn = "live"; c->compallsen = 0; c->frate = 100; c->cionly = 0; c->ds = 1; }
+/* Neither bundled model has skip transitions, but the library supports the Bakis topology (and the statement of C02 speaks of the model's
+ * transition matrices): a copy of the model's file with skip arcs 0->2 and 1->exit at half the weight of the regular arcs, valid header and
+ * checksum.  The loader re-normalises the rows. */
+static const char *vd_skip_tmat(int lang)
+{
+    static char path[2][600]; size_t n = 0; unsigned char *d; char *e; uint32_t nt, ns, nd, cnt, sum = 0, v; size_t off, k; float *f;
+    if (path[lang][0]) return path[lang];
+    d = (unsigned char *)vh_read_file(vh_path("%s/model/%s/transition_matrices", vh_repo, lang_dir[lang]), &n);
+    if (!d) return NULL;
+    e = strstr((char *)d, "endhdr\n"); if (!e) { free(d); return NULL; }
+    off = (size_t)(e - (char *)d) + 7 + 4;      /* header, byte-order magic */
+    memcpy(&nt, d + off, 4); memcpy(&ns, d + off + 4, 4); memcpy(&nd, d + off + 8, 4); memcpy(&cnt, d + off + 12, 4);
+    if (ns != 3 || nd != 4 || cnt != nt * ns * nd || off + 16 + (size_t)cnt * 4 + 4 > n) { free(d); return NULL; }
+    f = (float *)(d + off + 16);
+    for (k = 0; k < nt; ++k) { float *m = f + k * 12; m[0 * 4 + 2] = 0.5f * m[0 * 4 + 1]; m[1 * 4 + 3] = 0.5f * m[1 * 4 + 2]; }
+    for (k = 0; k < 4 + (size_t)cnt; ++k) { memcpy(&v, d + off + 4 * k, 4); sum = ((sum << 20) | (sum >> 12)) + v; }
+    memcpy(d + off + 16 + (size_t)cnt * 4, &sum, 4);
+    snprintf(path[lang], sizeof(path[lang]), "%s/tmat-skip-%s", vh_tmpdir(), lang_dir[lang]);
+    vh_write_file(path[lang], d, n); free(d);
+    return path[lang];
+}
 config_t *vd_make_config(const vd_cfg *c)
 {
     config_t *cf = config_init(NULL);
@@ -192,6 +213,7 @@ config_t *vd_make_config(const vd_cfg *c)
     if (c->frate != 100) config_set_int(cf, "frate", c->frate);
     if (c->cionly) config_set_bool(cf, "cionly", 1);
     if (c->ds > 1) config_set_int(cf, "ds", c->ds);
+    if (c->skip_tmat) { const char *tp = vd_skip_tmat(c->lang); if (tp) config_set_str(cf, "tmat", tp); }
     if (c->warp_type) config_set_str(cf, "warp_type", c->warp_type);
     if (c->warp_params) config_set_str(cf, "warp_params", c->warp_params);
     return cf;
@@ -200,7 +222,7 @@ config_t *vd_make_config(const vd_cfg *c)
 static struct { vd_cfg c; decoder_t *d; long used; } pool[VD_POOL]; static long pool_clock;
 static int cfg_same(const vd_cfg *a, const vd_cfg *b)
 {
-    return a->lang == b->lang && a->samprate == b->samprate && a->compallsen == b->compallsen && a->frate == b->frate && a->cionly == b->cionly && a->ds == b->ds && strcmp(a->cmn ? a->cmn : "", b->cmn ? b->cmn : "") == 0
+    return a->lang == b->lang && a->samprate == b->samprate && a->compallsen == b->compallsen && a->frate == b->frate && a->cionly == b->cionly && a->ds == b->ds && a->skip_tmat == b->skip_tmat && strcmp(a->cmn ? a->cmn : "", b->cmn ? b->cmn : "") == 0
         && strcmp(a->warp_type ? a->warp_type : "", b->warp_type ? b->warp_type : "") == 0 && strcmp(a->warp_params ? a->warp_params : "", b->warp_params ? b->warp_params : "") == 0;
 }
 decoder_t *vd_decoder_fresh(const vd_cfg *c)
